@@ -38,7 +38,7 @@ ASSUMPTIONS = [
     "(10 x convergence_tolerance, the engine's absolute test for vanished site populations)",
     "excluded, counted in classes (known findings, see replays/C03/known): site clauses of an exchanger / surface tied to a mineral "
     "after a second solver attempt; sites tied to a mineral that holds an element absent from the solution (by construction); a "
-    "-force_equality mineral that ends exhausted below its target. Not generated (undocumented corners): sites tied to a "
+    "-force_equality mineral that ends off its target without the documented error. Not generated (undocumented corners): sites tied to a "
     "precipitate_only mineral, solid-solution components that are also pure phases of the assemblage, kinetic reactants with "
     "tied sites that are used up (rk_kinetics does not return)",
 ]
@@ -47,7 +47,7 @@ LEVEL_TEXT = ("Exploration: thousands of generated cells per run; every reaction
               "(SI vs target and amount per mineral incl. restrictions, site totals per exchanger / surface site type from the "
               "database's own species list, solid-solution fractions and ideal activities).")
 FLOORS = {"quick": 400, "thorough": 3000}
-SHARDS = {"quick": 4, "thorough": 4}
+SHARDS = {"quick": 8, "thorough": 16}
 BUDGET = {"quick": 260, "thorough": 2600, "replay": 1}
 DBS = {"quick": ("phreeqc.dat", "phreeqc.dat", "phreeqc.dat", "wateq4f.dat", "pitzer.dat"),
        "thorough": ("phreeqc.dat", "phreeqc.dat", "wateq4f.dat", "pitzer.dat")}
@@ -114,13 +114,15 @@ def check_pp(case, row, start, strict, strict_ppt, res):
         hi = si > t + SI_TOL          # supersaturated with respect to the target
         lo = si < t - SI_TOL          # undersaturated
         if p["fe"]:
-            if m == 0.0 and lo and not p["alt"] and not case.get("assert_known_findings"):
-                # known finding `force-equality-exhausted`: a -force_equality mineral that is used up ends below its target
-                # without the documented error; the trigger cannot be excluded when the case is built, so this outcome is
-                # counted and not asserted (everything else about the phase and the cell still is)
-                res["fe_exhausted"] = True
-            elif hi or lo:
-                raise Violation("force_equality", "%s: run completed without error but SI = %.12g, moles %r" % (tag, si, m))
+            if hi or lo:
+                # known finding `force-equality-not-enforced`: RELEASE documents "the phase must reach its target SI or the
+                # calculation fails with an error", but the engine's exit test does not look at -force_equality: a phase that
+                # is used up (below target) or is dissolve_only and may not precipitate (above target) ends off target without
+                # an error.  The outcome cannot be excluded when the case is built; it is counted, not asserted, and the
+                # ordinary clauses below still apply to the phase (the registered replay sets assert_known_findings).
+                if case.get("assert_known_findings"):
+                    raise Violation("force_equality", "%s: run completed without error but SI = %.12g, moles %r" % (tag, si, m))
+                res["fe_off_target"] = True
             else:
                 res["worst"] = max(res["worst"], abs(si - t))
         if p["alt"]:
@@ -330,8 +332,10 @@ def check_dump(case, D, n, row, res, skip=()):
                 if any(x < 0 for x in xs) or abs(sum(xs) - 1.0) > SS_SUM_TOL + 1e-13 * len(xs):
                     raise Violation("ss_fraction", "saved solid solution %s: stored mole fractions %r (sum %.15g)" % (s["name"], xs, sum(xs)))
                 tot = sum(ms)
+                # (binary non-ideal solid solutions inside their miscibility gap carry the composition of the gap boundary,
+                #  not moles / total - only ideal ones are compared with the amounts)
                 for m, x, (c, _) in zip(ms, xs, s["comps"]):
-                    if abs(x - m / tot) > 1e-9:
+                    if not s["nonideal"] and abs(x - m / tot) > 1e-9:
                         raise Violation("ss_fraction", "saved solid solution %s: stored mole fraction of %s %.12g, moles give %.12g"
                                         % (s["name"], c, x, m / tot))
 
@@ -418,7 +422,7 @@ def check_case(case, ctx):
     cl = ["db=" + db, "mode=" + case["mode"], "stages=%d" % done]
     npp = len([p for p in case.get("pp", []) if not p["alt"] and not p["name"].endswith("(g)")])
     cl.append("minerals=%d" % npp)
-    for key in ("fe_exhausted", "inert", "exhausted", "appeared", "ss_exhausted", "ss_appeared", "ss_present", "sites_moved", "dissolve_only_blocked",
+    for key in ("fe_off_target", "inert", "exhausted", "appeared", "ss_exhausted", "ss_appeared", "ss_present", "sites_moved", "dissolve_only_blocked",
                 "precipitate_only_blocked"):
         if res.get(key):
             cl.append(key)
